@@ -439,6 +439,11 @@ def nat_sweep(seed, count):
                 sv = np.linalg.svd(F, compute_uv=False)
                 if abs(e - (sv[0] - 1)) > 1e-9 * max(1, sv[0]):
                     msgs.append("finite strain is not the largest principal stretch minus one")
+                for drv in ("evd", "evr", "evx"):  # the optional LAPACK driver must not change the answer
+                    ed, vd = D.finite_strain(F, driver=drv)
+                    if abs(ed - e) > 1e-9 * max(1, sv[0]) or (sv[0] - sv[1] > 1e-6 and abs(abs(vd @ v) - 1) > 1e-6):
+                        msgs.append(f"finite_strain(driver={drv!r}) differs from the default driver: {ed:.6f} vs {e:.6f}")
+                        break
                 e2, v2 = D.finite_strain(F @ Q)
                 e3, v3 = D.finite_strain(Q @ F)
                 if sv[0] - sv[1] > 1e-6:
